@@ -201,10 +201,44 @@ func init() {
 			}
 		}
 		in.path.tsTokens[sec] = copyVal(t)
+		// what is known of the fields without dividing by 10^9: the seconds
+		// are 0 exactly for instants in [epoch, epoch+1s), negative exactly
+		// before the epoch, and the nanos are within a second
+		if ts, ok := t.(Struct); ok && len(ts) == 3 && in.partsOf(t) == nil {
+			tt := in.tt
+			set, ns, _ := in.timeParts(t)
+			uns := tt.Ite(set, ns, tt.BV(64, zeroTimeBits))
+			in.addPC(tt.Eq(tt.Eq(sec, tt.BV(64, 0)), tt.And(tt.Cmp(OpSle, tt.BV(64, 0), uns), tt.Cmp(OpSlt, uns, tt.BV(64, 1_000_000_000)))))
+			in.addPC(tt.Eq(tt.Cmp(OpSlt, sec, tt.BV(64, 0)), tt.Cmp(OpSlt, uns, tt.BV(64, 0))))
+			in.addPC(tt.And(tt.Cmp(OpSle, tt.BV(32, 0), nan), tt.Cmp(OpSlt, nan, tt.BV(32, 1_000_000_000))))
+		}
 		p := new(Value)
 		*p = v
 		return Tuple{p, Iface{}}
 	}
+	tsField := func(name string, w int) intrinsic {
+		return func(in *Interp, fr *frame, args []Value) Value {
+			p, _ := args[0].(*Value)
+			if p == nil {
+				return in.tt.BV(w, 0) // generated getters are nil-safe
+			}
+			s := (*p).(Struct)
+			pkg := in.prog.ImportedPackage("google.golang.org/protobuf/types/known/timestamppb")
+			if pkg == nil {
+				in.unsupported("timestamppb not loaded")
+			}
+			stt := pkg.Type("Timestamp").Object().Type().Underlying().(*types.Struct)
+			for i := 0; i < stt.NumFields(); i++ {
+				if stt.Field(i).Name() == name {
+					return s[i]
+				}
+			}
+			in.unsupported("timestamppb: no field " + name)
+			return nil
+		}
+	}
+	intrinsics["(*google.golang.org/protobuf/types/known/timestamppb.Timestamp).GetSeconds"] = tsField("Seconds", 64)
+	intrinsics["(*google.golang.org/protobuf/types/known/timestamppb.Timestamp).GetNanos"] = tsField("Nanos", 32)
 	intrinsics["github.com/golang/protobuf/ptypes.Timestamp"] = func(in *Interp, fr *frame, args []Value) Value {
 		tt := in.tt
 		p, _ := args[0].(*Value)
